@@ -14,6 +14,7 @@ inductive WVal (K : Type) where
 
 inductive WKind where
   | set | aadd | asub | amin | amax | aor | aand
+  | alloc   -- atomic add whose returned (old) value the thread uses, e.g. as a slot index
   deriving DecidableEq, Repr
 
 structure Write (K : Type) where
@@ -34,6 +35,7 @@ def lookupF {K : Type} [Scalar K] (ws : List (Write K)) (arr : String) (idx : Li
       (match w.kind, w.val with
        | .set, .f x => x
        | .aadd, .f x => acc + x
+       | .alloc, .f x => acc + x
        | .asub, .f x => acc - x
        | _, _ => acc) else acc) dflt
 def lookupI {K : Type} (ws : List (Write K)) (arr : String) (idx : List Int) (dflt : Int) : Int :=
@@ -41,10 +43,16 @@ def lookupI {K : Type} (ws : List (Write K)) (arr : String) (idx : List Int) (df
       (match w.kind, w.val with
        | .set, .i x => x
        | .aadd, .i x => acc + x
+       | .alloc, .i x => acc + x
        | .asub, .i x => acc - x
        | .amax, .i x => max acc x
        | .amin, .i x => min acc x
        | .aor, .i x => Mjw.ior acc x
+       | _, _ => acc) else acc) dflt
+def lookupV {K : Type} (ws : List (Write K)) (arr : String) (idx : List Int) (dflt : List K) : List K :=
+  ws.foldl (fun acc w => if w.arr == arr && w.idx == idx then
+      (match w.kind, w.val with
+       | .set, .v x => x
        | _, _ => acc) else acc) dflt
 def lookupB {K : Type} (ws : List (Write K)) (arr : String) (idx : List Int) (dflt : Bool) : Bool :=
   ws.foldl (fun acc w => if w.arr == arr && w.idx == idx then
@@ -57,6 +65,11 @@ end Write
 /-- `for i in range(lo, hi)` as a left fold -/
 def forRange {σ : Type} (lo hi : Int) (init : σ) (f : Int → σ → σ) : σ :=
   (List.range (hi - lo).toNat).foldl (fun s (k : Nat) => f (lo + Int.ofNat k) s) init
+
+/-- `for i in range(lo, hi, step)` (step ≠ 0) as a left fold -/
+def forRangeStep {σ : Type} (lo hi step : Int) (init : σ) (f : Int → σ → σ) : σ :=
+  let n : Nat := if step > 0 then ((hi - lo + step - 1) / step).toNat else if step < 0 then ((lo - hi - step - 1) / (-step)).toNat else 0
+  (List.range n).foldl (fun s (k : Nat) => f (lo + step * Int.ofNat k) s) init
 
 /-- `while cond: body` with explicit fuel (termination is a proof obligation of whoever picks the fuel) -/
 def whileFuel {σ : Type} : Nat → (σ → Bool) → (σ → σ) → σ → σ
